@@ -95,5 +95,26 @@ PROPS["C17"] = {
 }
 
 
+PROPS["C10"] = {
+    "level": "proof",
+    "verus": [],
+    "kani": ["tfm_raw"],
+    "unverified_callers": [
+        "validate_and_fix (480 lines over HashMap<Char,..>), from_raw_file iterator glue, Header::deserialize string handling",
+        "the whole PL text side: pl/cst.rs, pl/ast.rs, From<pl::File> for File, serialize_char_infos - 'arbitrary text never panics' and 'PL->TFM output is a readable TFM' are NOT decided",
+    ],
+    "assumptions": ["files longer than 100 bytes differ from the explored ones only in the number of ignored/sliced trailing bytes (header logic reads 24 bytes + the length)"],
+}
+PROPS["C11"] = {
+    "level": "proof",
+    "verus": [],
+    "kani": ["tfm_raw"],
+    "unverified_callers": [
+        "WORD LEVEL ONLY: pl::File::display / from_pl_source_code (text), From<pl::File> for File and back, pack_entrypoints/unpack_entrypoint, table compression - the composition to a byte-for-byte fixed point is NOT decided",
+    ],
+    "assumptions": [],
+}
+
+
 def props():
     return PROPS
